@@ -42,6 +42,10 @@ class Comment(TypedExpression):
             if "\n" in inner:
                 indent_prefix = " " * node.start_point.column
                 lines = inner.split("\n")
+                # The padding next to the delimiters is re-added by rebuild(): keeping it
+                # here would grow the comment by one space on every round trip.
+                lines[0] = lines[0].strip(" ")
+                lines[-1] = lines[-1].rstrip(" ")
                 normalized = [lines[0]]
                 for line in lines[1:]:
                     if indent_prefix and line.startswith(indent_prefix):
